@@ -215,7 +215,7 @@ static void civil_around(std::vector<civil_second>* out, const Tr& tr) {
   }
 }
 
-static void run_zone(Ctx& c, vt::Rng& r, bool thorough, const std::vector<int64_t>& spec_panel) {
+static void run_zone(Ctx& c, vt::Rng& r, bool thorough, const std::vector<int64_t>& spec_panel, bool full_chains) {
   std::vector<Tr> ch = chain(c, 2000);
   // sample of the chain
   std::vector<size_t> pick;
@@ -343,6 +343,7 @@ static void run_zone(Ctx& c, vt::Rng& r, bool thorough, const std::vector<int64_
     ev_trans(c, true, kMin); ev_trans(c, true, kMax); ev_trans(c, false, kMin); ev_trans(c, false, kMax);
     for (int i = 0; i < 10; ++i) { int64_t t = (int64_t)r.next(); ev_trans(c, true, t); ev_trans(c, false, t); }
     // full chains, following the library's own answers: forward from min(), backward from max()
+    if (full_chains) {
     emit(c, "{\"e\":\"ChainStart\",\"z\":" + std::to_string(c.z) + ",\"dir\":\"fwd\"}");
     {
       TP t = TP::min();
@@ -366,6 +367,7 @@ static void run_zone(Ctx& c, vt::Rng& r, bool thorough, const std::vector<int64_
       }
     }
     emit(c, "{\"e\":\"ChainEnd\",\"z\":" + std::to_string(c.z) + "}");
+    }
   }
   if (fam_history && !ch.empty()) {
     // C14: put the hidden hint in every bracket (one query landing there), then a fixed probe panel
@@ -409,6 +411,9 @@ static void run_zone(Ctx& c, vt::Rng& r, bool thorough, const std::vector<int64_
   }
 }
 
+// zones with few transitions always get full chains
+static bool ch_small(Ctx& c) { return chain(c, 130).size() < 120; }
+
 static void crash_handler(int sig) {
   fflush(nullptr);
   const char msg[] = "FATAL: crash signal in driver (assert/ASan)\n";
@@ -451,6 +456,7 @@ int main(int argc, char** argv) {
   }
   std::vector<FILE*> files;
   std::vector<int> zcount(nsh, 0);
+  std::vector<uint64_t> shard_events(nsh, 0);
   for (int i = 0; i < nsh; ++i) {
     std::string p = prefix + "." + std::to_string(i) + ".ndjson";
     FILE* f = fopen(p.c_str(), "w");
@@ -467,7 +473,9 @@ int main(int argc, char** argv) {
     std::string name = line.substr(0, tab), path = line.substr(tab + 1);
     std::ifstream zf(path, std::ios::binary);
     std::string bytes((std::istreambuf_iterator<char>(zf)), std::istreambuf_iterator<char>());
-    int sh = idx % nsh;
+    // the shard with the fewest events so far (zones differ a lot in size)
+    int sh = 0;
+    for (int i = 1; i < nsh; ++i) if (shard_events[i] < shard_events[sh]) sh = i;
     ++idx;
     std::string key = "V/" + std::to_string(idx) + "/" + name;
     { std::lock_guard<std::mutex> l(g_mu); g_files[key] = bytes; }
@@ -481,9 +489,10 @@ int main(int argc, char** argv) {
     if (ok && !ub) {
       ++loaded;
       vt::Rng r(seed * 1000003 + (uint64_t)idx);
-      run_zone(c, r, thorough, panel[name]);
+      run_zone(c, r, thorough, panel[name], thorough || ch_small(c) || (uint64_t)idx % 4 == seed % 4);
     }
     total += c.events;
+    shard_events[sh] += c.events + 50;
     { std::lock_guard<std::mutex> l(g_mu); g_files.erase(key); }
   }
   for (FILE* f : files) fclose(f);
